@@ -13,7 +13,8 @@ RULE = ("single lines enumerated exhaustively over the 15-class alphabet up to t
 
 SHAPES = ["", "# c", "<a>", "<a n>", "<A  N >", "<a/>", "<a n/>", "<a/ >", "</a>", "</A >", "</b>", "<b>", "k v", "k", "k  v  w ",
           "K V", "k $$v", "%define x y", "%define X", "%import p.q", "%include f", "%bogus x", "%define", "%", "<", "<a", "a>",
-          "</", "<>", "</>", "<a b c>", "(k) v", "k(x) v", "<a (b)>", "\x0c", "k\x0bv", "é ü", "<é>", "</é>", "$x y", "k $x", "k ${x"]
+          "</", "<>", "</>", "<a b c>", "(k) v", "k(x) v", "<a (b)>", "\x0c", "k\x0bv", "é ü", "<é>", "</é>", "$x y", "k $x", "k ${x",
+          "<Item Stra\u00dfe>", "</ITEM>", "<K\u00dcCHE \u00c9cole/>", "<\u0414\u043e\u043c \u017f>"]
 
 
 class RecSection:
